@@ -20,8 +20,8 @@ Proof.
   split.
   - intros s Hv. cbn [utf8_valid is_nfc nfc_norm corr_strops] in *. unfold is_nfc_c, nfc_norm_c.
     destruct (lookup s nfc_table) as [n|] eqn:E.
-    + destruct (lookup_values s n E) as [L U]. rewrite L. split; [destruct (has_high n); reflexivity|exact U].
-    + rewrite E. split; [destruct (has_high s); reflexivity|exact Hv].
+    + destruct (lookup_values s n E) as [L U]. rewrite L. split; [destruct (in_normal n); [reflexivity|destruct (has_high n); reflexivity]|exact U].
+    + rewrite E. split; [destruct (in_normal s); [reflexivity|destruct (has_high s); reflexivity]|exact Hv].
   - intros s Hn. cbn [is_nfc nfc_norm corr_strops] in *. unfold is_nfc_c, nfc_norm_c in *.
     destruct (lookup s nfc_table); [discriminate|reflexivity].
 Qed.
